@@ -234,6 +234,14 @@ func actSec(a act) string {
 		return "status:" + a.Arg
 	case "ctl":
 		return "ctl:ruleEngine=" + a.Arg
+	case "ctlreqlimit":
+		return "ctl:requestBodyLimit=" + a.Arg
+	case "ctlresplimit":
+		return "ctl:responseBodyLimit=" + a.Arg
+	case "ctlreqacc":
+		return "ctl:requestBodyAccess=" + a.Arg
+	case "ctlrespacc":
+		return "ctl:responseBodyAccess=" + a.Arg
 	case "skip":
 		return "skip:" + a.Arg
 	case "skipafter":
@@ -256,6 +264,14 @@ func actCoq(a act) string {
 		return "IStatus " + a.Arg
 	case a.K == "ctl":
 		return "ICtl " + modeCoq(a.Arg)
+	case a.K == "ctlreqlimit":
+		return "IBody (BReqLimit " + a.Arg + "%Z)"
+	case a.K == "ctlresplimit":
+		return "IBody (BRespLimit " + a.Arg + "%Z)"
+	case a.K == "ctlreqacc":
+		return "IBody (BReqAcc " + vh.Bool(a.Arg == "On") + ")"
+	case a.K == "ctlrespacc":
+		return "IBody (BRespAcc " + vh.Bool(a.Arg == "On") + ")"
 	case a.K == "skip":
 		return "ISkip " + a.Arg
 	case a.K == "skipafter":
@@ -429,6 +445,10 @@ type obs struct {
 	allow   corazatypes.AllowType
 	skip    int
 	skipAft string
+	reqAcc  bool
+	reqLim  int64
+	respAcc bool
+	respLim int64
 	errText string
 }
 
@@ -526,6 +546,7 @@ func (rn *runner) run(w wafCfg, calls []call) (*runResult, error) {
 		o.engine = tx.RuleEngine
 		o.allow = tx.AllowType
 		o.skip, o.skipAft = tx.Skip, tx.SkipAfter
+		o.reqAcc, o.reqLim, o.respAcc, o.respLim = tx.RequestBodyAccess, tx.RequestBodyLimit, tx.ResponseBodyAccess, tx.ResponseBodyLimit
 		res.obs = append(res.obs, o)
 	}
 	for _, mr := range tx.MatchedRules() {
@@ -1253,6 +1274,9 @@ func Run(cfg vh.Config) (*vh.Result, error) {
 		os_ := make([]string, len(rr.obs))
 		for i, o := range rr.obs {
 			os_[i] = acc.in.obs(o)
+			if family == "ctl_body" { // the per-transaction body settings are compared after every call
+				os_[i] = fmt.Sprintf("OB (%s) %s %d%%Z %s %d%%Z", os_[i], vh.Bool(o.reqAcc), o.reqLim, vh.Bool(o.respAcc), o.respLim)
+			}
 		}
 		ms := make([]string, len(rr.matched))
 		for i, m := range rr.matched {
@@ -1519,6 +1543,58 @@ func Run(cfg vh.Config) (*vh.Result, error) {
 			}
 			if err := add(w, s, "random"); err != nil {
 				return nil, err
+			}
+		}
+		// (5) per-transaction body settings changed by ctl (deterministic grid, appended after every other
+		//     family, no PRNG draws): WAF-wide limit 8; a ctl rule in phase ph sets the request / response
+		//     body limit or access; bodies around the ctl limit and around the WAF-wide limit
+		{
+			type bc struct {
+				k, arg string
+				phases []int
+			}
+			grid := []bc{
+				{"ctlreqlimit", "4", []int{1, 2}}, {"ctlreqlimit", "3", []int{1}}, {"ctlreqlimit", "8", []int{1}}, {"ctlreqlimit", "0", []int{1}},
+				{"ctlresplimit", "4", []int{1, 3, 4}}, {"ctlresplimit", "3", []int{2}}, {"ctlresplimit", "8", []int{3}},
+				{"ctlreqacc", "Off", []int{1, 2}}, {"ctlreqacc", "On", []int{1, 2}},
+				{"ctlrespacc", "Off", []int{1, 3, 4}}, {"ctlrespacc", "On", []int{3, 4}},
+			}
+			n := 0
+			for _, g := range grid {
+				for _, ph := range g.phases {
+					for ai, la := range [][2]string{{"Reject", "Reject"}, {"ProcessPartial", "ProcessPartial"}, {"Reject", "ProcessPartial"}} {
+						lim := 8
+						if g.k == "ctlreqlimit" || g.k == "ctlresplimit" {
+							lim, _ = strconv.Atoi(g.arg)
+						}
+						for zi, sz := range []int{lim - 1, lim + 1, 7, 9} {
+							if sz < 0 || (ai == 2 && zi%2 == 1) {
+								continue
+							}
+							n++
+							acts := []act{{g.k, g.arg}, {K: "pass"}}
+							if ai == 2 { // F12 shape: the same rule switches to DetectionOnly
+								acts = append(acts, act{"ctl", "DetectionOnly"})
+							}
+							w := wafCfg{Engine: "On", ReqLim: 8, RespLim: 8, ReqAct: la[0], RespAct: la[1],
+								ReqAcc: !(g.k == "ctlreqacc" && g.arg == "On"), RespAcc: !(g.k == "ctlrespacc" && g.arg == "On")}
+							w.Rules = []rawRule{marker(7, 1), {ID: 20 + ph, Phase: ph, Cond: "true", Acts: acts, Status: -1},
+								{ID: 40, Phase: 2, Cond: "uri", Dacts: []dact{{K: "deny"}}, Status: 401}, marker(43, 3), marker(44, 4), marker(50, 5)}
+							var sq []call
+							switch n % 3 {
+							case 0:
+								sq = []call{{K: "prh"}, {K: "wreq", N: sz}, {K: "wreq", N: 2}, {K: "prb"}, {K: "resphdr"}, {K: "presph"}, {K: "wresp", N: sz}, {K: "prespb"}, {K: "log"}}
+							case 1:
+								sq = []call{{K: "wreq", N: 2}, {K: "prh"}, {K: "rreq", N: sz, Known: true}, {K: "prb"}, {K: "presph"}, {K: "rresp", N: sz}, {K: "wresp", N: 1}, {K: "prespb"}}
+							default:
+								sq = []call{{K: "uri"}, {K: "prh"}, {K: "rreq", N: sz}, {K: "prb"}, {K: "presph"}, {K: "rresp", N: sz, Known: true}, {K: "log"}}
+							}
+							if err := add(w, sq, "ctl_body"); err != nil {
+								return nil, err
+							}
+						}
+					}
+				}
 			}
 		}
 	}
